@@ -77,11 +77,11 @@ GTick ==
 
 GClose == \E how \in {"eof", "err"} : Close /\ Rec("close", 0, how) /\ Same
 
-Complete == conn = "closed" \/ Len(log) = MaxSteps
+Finished == conn = "closed" \/ Len(log) = MaxSteps
 
-GNext == ~Complete /\ (GSend \/ GDeliver \/ GUnknown \/ GGarbage \/ GCancel \/ GTick \/ GClose)
+GNext == ~Finished /\ (GSend \/ GDeliver \/ GUnknown \/ GGarbage \/ GCancel \/ GTick \/ GClose)
 GSpec == GInit /\ [][GNext]_gvars
 
 Case == [n |-> N, cap |-> Cap, to |-> TO, log |-> log, exp |-> exp]
-Emit == Complete => PrintT(<<"REPLAY", ToJson(Case)>>)
+Emit == Finished => PrintT(<<"REPLAY", ToJson(Case)>>)
 =============================================================================
